@@ -16,6 +16,7 @@ import (
 	"sync"
 
 	"storj.io/drpc"
+	"storj.io/drpc/drpcmetadata"
 	"storj.io/drpc/drpcmanager"
 	"storj.io/drpc/drpcstream"
 
@@ -344,6 +345,86 @@ func parkedTerminal(id string, seed uint64) runner.Result {
 	return wireVerdict(id, hist, rg, reached)
 }
 
+// cancelAtCreation: several goroutines issue RPCs on one connection; the goroutine of one of them
+// is parked at an internal point of stream creation (semaphore acquired, stream published, handed
+// over, created, after the metadata/invoke writes) and its context is cancelled there, while the
+// others are waiting to create the next streams; then it is released.
+func cancelAtCreation(id string, seed uint64) runner.Result {
+	r := &payload.SplitMix{S: seed}
+	cfg := prog.GenConfig(r, false)
+	if r.Intn(4) != 0 {
+		cfg.Client.SoftCancel, cfg.Server.SoftCancel = true, true
+	}
+	cfg.Net.Cap = -1
+	point := payload.Pick(r, []string{"manager.sem.acquired", "manager.newstream.published", "manager.newstream.beforeSet", "conn.newstream.afterCreate", "conn.invoke.afterCreate", "conn.newstream.afterMeta", "conn.invoke.afterMeta", "conn.invoke.afterInvoke"})
+	nth := 1 + r.Intn(3)
+	ngo := 2 + r.Intn(3)
+	handler := rig.HandlerFunc(func(stream drpc.Stream, rpc string) error {
+		var m []byte
+		if err := stream.MsgRecv(&m, payload.Enc{}); err != nil {
+			return nil
+		}
+		out := payload.Make(2, 1, 0, 0, 40)
+		return stream.MsgSend(&out, payload.Enc{})
+	})
+	rg := rig.New(rig.Config{Net: cfg.Net, Client: cfg.Client, Server: cfg.Server}, handler)
+	defer rg.Teardown()
+	park := rg.Dir.ParkAt(point, rg.Pair.A, nth)
+	var mu sync.Mutex
+	cancels := map[int64]context.CancelFunc{} // by goroutine id
+	var ops []*rig.Op
+	for g := 0; g < ngo; g++ {
+		g := g
+		ops = append(ops, rig.Go(fmt.Sprintf("caller%d", g), func() (interface{}, error) {
+			for k := 0; k < 3; k++ {
+				ctx, cancel := context.WithCancel(context.Background())
+				if (g+k)%2 == 0 {
+					ctx = drpcmetadata.Add(ctx, "k", fmt.Sprint(g, k))
+				}
+				mu.Lock()
+				cancels[census.Self()] = cancel
+				mu.Unlock()
+				if (g+k)%3 == 0 {
+					in := payload.Make(1, 0, 0, 0, 30)
+					var out []byte
+					rg.Conn.Invoke(ctx, "/u", payload.Enc{}, &in, &out)
+				} else if st, err := rg.Conn.NewStream(ctx, "/s", payload.Enc{}); err == nil {
+					in := payload.Make(1, 0, 0, 0, 30)
+					st.MsgSend(&in, payload.Enc{})
+					st.CloseSend()
+					var out []byte
+					st.MsgRecv(&out, payload.Enc{})
+					st.Close()
+				}
+				cancel()
+			}
+			return nil, nil
+		}))
+	}
+	reached := false
+	if st, _ := census.QuiesceOr(park.Reached(), rig.Watchdog); st == "ready" {
+		reached = true
+		census.Quiesce(rig.Watchdog)
+		// cancel the RPC of the goroutine that is parked at the point
+		if gid := park.Gid(); gid != 0 {
+			mu.Lock()
+			c := cancels[gid]
+			mu.Unlock()
+			if c != nil {
+				c()
+			}
+		}
+		census.Quiesce(rig.Watchdog)
+	}
+	park.Release()
+	for _, op := range ops {
+		op.Wait()
+	}
+	census.Quiesce(rig.Watchdog)
+	hist := fmt.Sprintf("%s | cancel-at-creation: %d goroutines x 3 RPCs, the goroutine making hit #%d of %s is cancelled there (reached=%v)", cfg.Desc, ngo, nth, point, reached)
+	return wireVerdict(id, hist, rg, reached)
+}
+
 // rawNextInvoke: a server built directly on drpcmanager.Manager hands each
 // stream to its own goroutine; a raw peer moves on to the next stream without
 // closing the previous one while the previous reply is parked in the transport
@@ -449,6 +530,10 @@ func gen(tier string, seed uint64) []runner.Scenario {
 		out = append(out, runner.Scenario{ID: id, Run: func() runner.Result { return storm(id, payload.Hash(seed, 0xC07, uint64(i))) }})
 		id2 := fmt.Sprintf("parked-terminal/%d", i)
 		out = append(out, runner.Scenario{ID: id2, Run: func() runner.Result { return parkedTerminal(id2, payload.Hash(seed, 0xC071, uint64(i))) }})
+		if i%2 == 0 {
+			id4 := fmt.Sprintf("cancel-at-creation/%d", i)
+			out = append(out, runner.Scenario{ID: id4, Run: func() runner.Result { return cancelAtCreation(id4, payload.Hash(seed, 0xC073, uint64(i))) }})
+		}
 		id3 := fmt.Sprintf("raw-next-invoke/%d", i)
 		out = append(out, runner.Scenario{ID: id3, Run: func() runner.Result { return rawNextInvoke(id3, payload.Hash(seed, 0xC072, uint64(i))) }})
 	}
